@@ -124,6 +124,11 @@ fn absorb(res: &mut JobResult, lines: Vec<String>) -> bool {
             "X" => {
                 res.status = format!("internal:open-failed:{}", body);
             }
+            "T" => {
+                if let Ok(mut v) = serde_json::from_str::<Vec<Ev>>(body) {
+                    res.trace.append(&mut v);
+                }
+            }
             "E" => ended = true,
             _ => {}
         }
@@ -209,11 +214,75 @@ fn reexec() -> ! {
     std::process::exit(3);
 }
 
+/// A pristine helper process, forked before this worker touches the engine. Isolated
+/// jobs are forwarded to it, so the children it forks never inherit process-global engine
+/// state (file-name clock, trackers, deletion channel) from in-process executions.
+struct Zygote {
+    to: std::fs::File,
+    from: std::io::BufReader<std::fs::File>,
+}
+
+fn spawn_zygote(root: &Path) -> Option<Zygote> {
+    let mut a = [0i32; 2]; // worker -> zygote
+    let mut b = [0i32; 2]; // zygote -> worker
+    unsafe {
+        if libc::pipe2(a.as_mut_ptr(), libc::O_CLOEXEC) != 0 || libc::pipe2(b.as_mut_ptr(), libc::O_CLOEXEC) != 0 {
+            return None;
+        }
+    }
+    let pid = unsafe { libc::fork() };
+    if pid < 0 {
+        return None;
+    }
+    if pid == 0 {
+        unsafe {
+            libc::close(a[1]);
+            libc::close(b[0]);
+            let devnull = libc::open(b"/dev/null\0".as_ptr() as *const libc::c_char, libc::O_RDWR);
+            if devnull >= 0 {
+                libc::dup2(devnull, 0);
+                libc::dup2(devnull, 1);
+            }
+        }
+        let rd = unsafe { std::fs::File::from_raw_fd(a[0]) };
+        let mut wr = unsafe { std::fs::File::from_raw_fd(b[1]) };
+        let mut rd = std::io::BufReader::new(rd);
+        let mut n = 0u64;
+        let mut line = String::new();
+        loop {
+            line.clear();
+            match rd.read_line(&mut line) {
+                Ok(k) if k > 0 => {}
+                _ => break,
+            }
+            let r = match serde_json::from_str::<Job>(line.trim_end()) {
+                Ok(job) => {
+                    n += 1;
+                    run_job(&job, &root.join(format!("z{}", n)))
+                }
+                Err(e) => JobResult { status: format!("internal:badjob:{}", e), ..Default::default() },
+            };
+            let _ = writeln!(wr, "{}", serde_json::to_string(&r).unwrap());
+            let _ = wr.flush();
+        }
+        unsafe { libc::_exit(0) };
+    }
+    unsafe {
+        libc::close(a[0]);
+        libc::close(b[1]);
+    }
+    Some(Zygote {
+        to: unsafe { std::fs::File::from_raw_fd(a[1]) },
+        from: std::io::BufReader::new(unsafe { std::fs::File::from_raw_fd(b[0]) }),
+    })
+}
+
 pub fn worker_main() {
     use std::sync::atomic::Ordering;
     let root = scratch_root();
     let _ = std::fs::remove_dir_all(&root);
     let _ = std::fs::create_dir_all(&root);
+    let mut zygote = spawn_zygote(&root);
     // watchdog for in-process jobs: a hung engine call cannot be interrupted, so report
     // a timeout for the job and leave; the pool re-runs the job isolated
     std::thread::spawn(|| loop {
@@ -259,7 +328,22 @@ pub fn worker_main() {
         n += 1;
         let dir = root.join(format!("x{}", n));
         let r = if job.isolate {
-            run_job(&job, &dir)
+            let mut via: Option<JobResult> = None;
+            if let Some(z) = zygote.as_mut() {
+                let ok = writeln!(z.to, "{}", line).is_ok() && z.to.flush().is_ok();
+                let mut resp = String::new();
+                if ok && matches!(z.from.read_line(&mut resp), Ok(k) if k > 0) {
+                    via = serde_json::from_str::<JobResult>(&resp).ok();
+                }
+            }
+            match via {
+                Some(r) => r,
+                None => {
+                    // zygote lost: make a new one for the next job, run this one here
+                    zygote = spawn_zygote(&root);
+                    run_job(&job, &dir)
+                }
+            }
         } else {
             CUR_JOB.store(job.id, Ordering::SeqCst);
             DEADLINE_MS.store(now_ms() + timeout_ms() as u64, Ordering::SeqCst);
